@@ -84,6 +84,7 @@ class Shim:
         self.hook = None        # crash harness: called before every modifying execute / commit
 
     def connect(self, name, *a, **k):
+        k.setdefault('timeout', 0.3)        # a second connection that finds the database locked fails fast instead of waiting 5 s
         c = Conn(_real.connect(name, *a, **k), self)
         self.conns.append(c)
         return c
@@ -111,4 +112,4 @@ def install():
     return shim, undo
 
 
-STUBS = ['sqlite3: the real sqlite3 (real SQL, :memory: or scratch db file); atoms among statement parameters are encoded as marker strings and decoded in result rows']
+STUBS = ['sqlite3: the real sqlite3 (real SQL, :memory: or scratch db file); atoms among statement parameters are encoded as marker strings and decoded in result rows; busy timeout 0.3 s']
